@@ -39,7 +39,8 @@ A *realistic* change to the library source (`src/**`, optionally `bevy_cobweb_de
 3. you demonstrate it with a test file `tests/seed_demo.rs` (a `[[test]] name = "seed_demo"` entry is already in
    Cargo.toml; write ordinary `#[test]` functions using only the public API of bevy_cobweb and bevy, see
    `tests/test/**` for the style) that FAILS with your change (`cargo test --offline --test seed_demo`) and PASSES on
-   the unchanged source (check with `git stash` / `git diff -- src > x; git checkout -- src`, then re-apply). The
+   the unchanged source (check with `git diff -- src > {O}/x.diff; git checkout -- src`, run, then `git apply {O}/x.diff`;
+   never use `git stash`: the stash is shared with other worktrees of the same repository). The
    demonstration must assert the behaviour the property states, not an implementation detail.
 {('4. ' + avoid) if avoid else ''}
 
